@@ -11,13 +11,19 @@
    (key i = rank of ln w_i - ln(-ln u_i)); the theorems hold for every key sequence,
    ties included, hence for every weight vector and every random draw.
 
-   PARTIAL: the last sentence (P(i) = w_i / sum w for sampleNum = 1) is the
-   Efraimidis-Spirakis theorem about the DISTRIBUTION of the keys; it needs probability
-   theory over IEEE floats that is not installed.  What is proved of it is the algorithmic
-   half: c20_sample_k1_argmax / c20_sample_k1_first_argmax (the returned index is the
-   arg-max of the keys, the first one under ties) and c20_sample_topk.  The
-   distributional half is a fixed-seed frequency TEST in vlib/c20.py (stream
-   "frequency-test-k1"), reported as a test. *)
+   The last sentence (P(i) = w_i / sum w for sampleNum = 1) is about the DISTRIBUTION of
+   the keys (Efraimidis-Spirakis).  It is split in three:
+   (a) algorithmic half, proved for every key sequence: c20_sample_k1_argmax /
+       c20_sample_k1_first_argmax (the returned index is the arg-max of the keys, the first
+       one under ties) and c20_sample_topk;
+   (b) distributional half, proved for the IDEAL real-valued model (models/SampleProb.v,
+       second part of this file, Coq Reals + Coquelicot): u_0..u_(n-1) independent uniform
+       on the unit interval, exact keys ln u / w: c20_k1_probability and its companions;
+       c20_k1_returns_winner ties the event to the executable model of (a); the first two
+       picks of sampling without replacement (sampleNum = 2): c20_k2_probability;
+   (c) PARTIAL: that the float64 keys computed with math.Log from math/rand draws behave
+       like the ideal ones is NOT proved (no probability theory over IEEE floats); it is
+       a fixed-seed frequency TEST in vlib/c20.py (stream "frequency-test-k1"). *)
 From Got Require Import Base Heap HeapProofs Sample SampleProofs.
 Require Import Permutation.
 Local Open Scope Z_scope.
@@ -183,3 +189,233 @@ Example c20_nonvacuous :
 Proof.
   split; [lia|]. split; [exact smp_example|]. exact smp_sample_orig_refuted_distinct_keys.
 Qed.
+
+
+(* ====================================================================================
+   Second part: the distribution clause for the IDEAL real-valued model
+   (models/SampleProb.v; proofs/SampleProbProofs.v, proofs/SampleProbLink.v).
+
+   Model: item j gets a draw u_j in the open unit interval and the exact key
+   sp_key u_j w_j = ln u_j / w_j; "i wins" (sp_wins) = its key is strictly the largest.
+   The draws are independent and uniform.  The probability of the event is defined as the
+   iterated integral that independence gives:
+     - sp_win_prob: integral over u_i of the product over the competitors j of the length
+       u_i^(w_j/w_i) of the interval in which u_j loses (c20_key_lose_interval);
+     - sp_is_win_prob_ind: the (n-dimensional) iterated integral of the INDICATOR of the
+       event, u_i outermost; proved equal to sp_win_prob for every n
+       (c20_k1_indicator_integral); for n = 2 both orders of integration are proved to
+       give the same value (c20_k1_n2_indicator, c20_k1_n2_indicator_swapped).
+   MODELLING ASSUMPTION (not a theorem here): "the probability of an event about
+   independent uniform draws is the iterated Riemann integral of its indicator over the
+   unit cube, in any order" -- there is no measure theory underneath; for n > 2 only the
+   order with u_i outermost is treated.
+   NOT modelled: float64 rounding of the keys and of math.Log, the generator (math/rand
+   Float64: 2^53-point grid, can return 0), ties (a null set in the ideal model).
+
+   These theorems depend on the classical real numbers of the standard library; the
+   std-lib postulates they use are printed by Print Assumptions below and are allow-listed
+   by name in vlib/c20.py (REAL_ANALYSIS_BASE). *)
+Require Import Reals.
+From Coquelicot Require Import Coquelicot.
+Require Import List Permutation.   (* after Coquelicot: List.Forall, not AutoDerive's *)
+From Got Require Import SampleProb SampleProbProofs SampleProbPair SampleProbLink.
+Local Open Scope R_scope.
+
+(* conditional on u_i = u, item j loses exactly when its draw v is below u^(w_j/w_i);
+   that bound lies strictly between 0 and 1: the losing set is an interval of that length *)
+Theorem c20_key_lose_interval :
+  forall u v wi wj, 0 < u < 1 -> 0 < v -> 0 < wi -> 0 < wj ->
+    (ln v / wj < ln u / wi <-> v < Rpower u (wj / wi)).
+Proof. exact sp_lose_interval. Qed.
+Print Assumptions c20_key_lose_interval.
+
+Theorem c20_key_lose_interval_bounds :
+  forall u wi wj, 0 < u < 1 -> 0 < wi -> 0 < wj -> 0 < Rpower u (wj / wi) < 1.
+Proof. exact sp_lose_interval_bounds. Qed.
+Print Assumptions c20_key_lose_interval_bounds.
+
+(* MAIN: sampleNum = 1, any number of items, any strictly positive real weights:
+   P(i wins) = w_i / sum w *)
+Theorem c20_k1_probability_is_RInt :
+  forall (ws : list R) (i : nat),
+    Forall (fun w => 0 < w) ws -> (i < length ws)%nat ->
+    is_RInt (fun u => fold_right Rmult 1
+                        (map (fun wj => Rpower u (wj / nth i ws 0))
+                             (firstn i ws ++ skipn (S i) ws)))
+            0 1 (nth i ws 0 / fold_right Rplus 0 ws).
+Proof. exact sp_k1_is_RInt. Qed.
+Print Assumptions c20_k1_probability_is_RInt.
+
+Theorem c20_k1_probability :
+  forall (ws : list R) (i : nat),
+    sp_pos ws -> (i < length ws)%nat -> sp_win_prob ws i = nth i ws 0 / sp_sum ws.
+Proof. exact sp_k1_probability. Qed.
+Print Assumptions c20_k1_probability.
+
+Theorem c20_k1_prob_range :
+  forall ws i, sp_pos ws -> (i < length ws)%nat -> 0 < sp_win_prob ws i <= 1.
+Proof. exact sp_k1_prob_range. Qed.
+Print Assumptions c20_k1_prob_range.
+
+(* the winning probabilities of all items add up to 1 *)
+Theorem c20_k1_total_probability :
+  forall ws, sp_pos ws -> ws <> [] ->
+    sp_sum (map (sp_win_prob ws) (seq 0 (length ws))) = 1.
+Proof. exact sp_k1_total_probability. Qed.
+Print Assumptions c20_k1_total_probability.
+
+(* only the ratios of the weights matter ("weights of any magnitude") *)
+Theorem c20_k1_scale_invariant :
+  forall c ws i, 0 < c -> sp_pos ws -> (i < length ws)%nat ->
+    sp_win_prob (map (Rmult c) ws) i = sp_win_prob ws i.
+Proof. exact sp_k1_scale_invariant. Qed.
+Print Assumptions c20_k1_scale_invariant.
+
+(* the position of an item and the order of the other items do not matter *)
+Theorem c20_k1_order_invariant :
+  forall ws i ws' i', sp_pos ws -> sp_pos ws' -> (i < length ws)%nat -> (i' < length ws')%nat ->
+    nth i ws 0 = nth i' ws' 0 -> Permutation (sp_others ws i) (sp_others ws' i') ->
+    sp_win_prob ws i = sp_win_prob ws' i'.
+Proof. exact sp_k1_order_invariant. Qed.
+Print Assumptions c20_k1_order_invariant.
+
+(* the same probability as the iterated integral of the indicator of the event over the
+   unit cube: two items, u_i outermost ... *)
+Theorem c20_k1_n2_indicator :
+  forall wi wj, 0 < wi -> 0 < wj ->
+    is_RInt (fun u => RInt (fun v => if Rlt_dec (ln v / wj) (ln u / wi) then 1 else 0) 0 1) 0 1
+            (wi / (wi + wj)).
+Proof. exact sp_k1_n2_indicator. Qed.
+Print Assumptions c20_k1_n2_indicator.
+
+(* ... and u_j outermost: the two orders of integration agree (the exchange of the order
+   of integration, proved for this event) *)
+Theorem c20_k1_n2_indicator_swapped :
+  forall wi wj, 0 < wi -> 0 < wj ->
+    is_RInt (fun v => RInt (fun u => if Rlt_dec (ln v / wj) (ln u / wi) then 1 else 0) 0 1) 0 1
+            (wi / (wi + wj)).
+Proof. exact sp_k1_n2_indicator_swapped. Qed.
+Print Assumptions c20_k1_n2_indicator_swapped.
+
+(* any number of items: the iterated integral (u_i outermost, then the competitors) of
+   the indicator of "u_i beats every competitor" exists, equals w_i / sum w, is unique,
+   hence is sp_win_prob *)
+Theorem c20_k1_indicator_integral :
+  forall ws i, sp_pos ws -> (i < length ws)%nat ->
+    sp_is_win_prob_ind ws i (nth i ws 0 / sp_sum ws) /\
+    (forall p, sp_is_win_prob_ind ws i p -> p = sp_win_prob ws i).
+Proof.
+  exact (fun ws i Hp Hi => conj (sp_k1_indicator_integral ws i Hp Hi)
+                                (fun p => sp_k1_indicator_integral_unique ws i p Hp Hi)).
+Qed.
+Print Assumptions c20_k1_indicator_integral.
+
+(* sp_beats_ind is 0/1-valued and is 1 exactly on the event *)
+Theorem c20_k1_indicator_is_indicator :
+  forall u wi vs wo, length vs = length wo ->
+    (sp_beats_ind u wi vs wo = 1 <->
+     forall j, (j < length wo)%nat -> sp_key (nth j vs 0) (nth j wo 0) < sp_key u wi) /\
+    (sp_beats_ind u wi vs wo = 1 \/ sp_beats_ind u wi vs wo = 0).
+Proof. exact sp_beats_ind_spec. Qed.
+Print Assumptions c20_k1_indicator_is_indicator.
+
+(* the key of algorithm A-Res named by the property, u^(1/w), orders the items exactly as
+   ln u / w does (for all reals: nothing underflows in R) ... *)
+Theorem c20_ares_key_order :
+  forall u w u' w',
+    (Rpower u (1 / w) < Rpower u' (1 / w') <-> ln u / w < ln u' / w').
+Proof. exact sp_ares_key_order. Qed.
+Print Assumptions c20_ares_key_order.
+
+(* ... and so does the log-domain key the code computes, ln w - ln(-ln u) *)
+Theorem c20_gumbel_key_order :
+  forall u w u' w', 0 < u < 1 -> 0 < w -> 0 < u' < 1 -> 0 < w' ->
+    (ln w - ln (- ln u) < ln w' - ln (- ln u') <-> ln u / w < ln u' / w').
+Proof. exact sp_gumbel_key_order. Qed.
+Print Assumptions c20_gumbel_key_order.
+
+(* tie to the executable model of the code (first part of this file): whenever the ranks
+   given to smp_sample order the items as the ideal keys do, the call with sampleNum = 1
+   returns i if i wins, and (no ties) only then *)
+Theorem c20_k1_returns_winner :
+  forall (key : nat -> Z) (us ws : list R) (i : nat),
+    sp_ranks_agree key us ws -> (i < length ws)%nat -> sp_wins us ws i ->
+    smp_sample SmpEmpty 1 (Z.of_nat (length ws)) key = HpOk (Z.of_nat i :: nil).
+Proof. exact sp_k1_returns_winner. Qed.
+Print Assumptions c20_k1_returns_winner.
+
+Theorem c20_k1_returned_is_winner :
+  forall (key : nat -> Z) (us ws : list R) (i : nat),
+    sp_ranks_agree key us ws -> sp_no_ties us ws -> (i < length ws)%nat ->
+    smp_sample SmpEmpty 1 (Z.of_nat (length ws)) key = HpOk (Z.of_nat i :: nil) ->
+    sp_wins us ws i.
+Proof. exact sp_k1_returned_is_winner. Qed.
+Print Assumptions c20_k1_returned_is_winner.
+
+(* apart from ties (a null set) exactly one index wins: the events "i wins" partition the
+   draws, in accordance with c20_k1_total_probability *)
+Theorem c20_k1_exactly_one_winner :
+  forall us ws, ws <> nil -> sp_no_ties us ws ->
+    exists i, (i < length ws)%nat /\ sp_wins us ws i /\
+              forall j, (j < length ws)%nat -> sp_wins us ws j -> j = i.
+Proof. exact sp_exactly_one_winner. Qed.
+Print Assumptions c20_k1_exactly_one_winner.
+
+(* ---- sampleNum = 2, "without replacement": P(i has the largest key and j the second
+   largest) = w_i/W * w_j/(W - w_i): i is picked with probability w_i/W, then j among the
+   remaining items with probability proportional to its weight.  As the double integral
+   (the other items integrated out as the product of their interval lengths) ... *)
+Theorem c20_k2_probability :
+  forall ws i j, sp_pos ws -> (i < length ws)%nat -> (j < length ws)%nat -> j <> i ->
+    sp_pair_prob ws i j = nth i ws 0 / sp_sum ws * (nth j ws 0 / (sp_sum ws - nth i ws 0)).
+Proof. exact sp_k2_probability. Qed.
+Print Assumptions c20_k2_probability.
+
+(* ... and as the iterated integral of the indicator of the event over the unit cube
+   (u_i outermost, then u_j, then the other items): exists, has that value, is unique *)
+Theorem c20_k2_indicator_integral :
+  forall ws i j, sp_pos ws -> (i < length ws)%nat -> (j < length ws)%nat -> j <> i ->
+    sp_is_pair_prob_ind ws i j (nth i ws 0 / sp_sum ws * (nth j ws 0 / (sp_sum ws - nth i ws 0))) /\
+    (forall p, sp_is_pair_prob_ind ws i j p ->
+               p = nth i ws 0 / sp_sum ws * (nth j ws 0 / (sp_sum ws - nth i ws 0))).
+Proof.
+  exact (fun ws i j Hp Hi Hj Hne =>
+           conj (sp_k2_indicator_integral ws i j Hp Hi Hj Hne)
+                (fun p => sp_k2_indicator_integral_unique ws i j p Hp Hi Hj Hne)).
+Qed.
+Print Assumptions c20_k2_indicator_integral.
+
+Theorem c20_k2_indicator_is_indicator :
+  forall wi wj wo u v xs, length xs = length wo ->
+    (sp_pair_ind wi wj wo (u :: v :: xs) = 1 <->
+     sp_key v wj < sp_key u wi /\
+     forall l, (l < length wo)%nat -> sp_key (nth l xs 0) (nth l wo 0) < sp_key v wj) /\
+    (sp_pair_ind wi wj wo (u :: v :: xs) = 1 \/ sp_pair_ind wi wj wo (u :: v :: xs) = 0).
+Proof. exact sp_pair_ind_spec. Qed.
+Print Assumptions c20_k2_indicator_is_indicator.
+
+(* summing the pair probabilities over the second pick gives back P(i first) *)
+Theorem c20_k2_marginal :
+  forall ws i, sp_pos ws -> (i < length ws)%nat -> (2 <= length ws)%nat ->
+    sp_sum (map (fun wj => nth i ws 0 / sp_sum ws * (wj / (sp_sum ws - nth i ws 0)))
+                (sp_others ws i))
+    = nth i ws 0 / sp_sum ws.
+Proof. exact sp_k2_marginal. Qed.
+Print Assumptions c20_k2_marginal.
+
+(* tie to the executable model: on that event the call with sampleNum = 2 returns
+   exactly the indices i and j *)
+Theorem c20_k2_returns_top_pair :
+  forall (key : nat -> Z) (us ws : list R) (i j : nat),
+    sp_ranks_agree key us ws -> (i < length ws)%nat -> (j < length ws)%nat -> i <> j ->
+    sp_wins2 us ws i j ->
+    exists r, smp_sample SmpEmpty 2 (Z.of_nat (length ws)) key = HpOk r /\
+              Permutation r (Z.of_nat i :: Z.of_nat j :: nil).
+Proof. exact sp_k2_returns_top_pair. Qed.
+Print Assumptions c20_k2_returns_top_pair.
+
+(* non-vacuity: weights 1, 2, 3: the middle item wins with probability 1/3; it is first
+   and the last item second with probability 2/6 * 3/4 = 1/4 *)
+Example c20_prob_nonvacuous :
+  sp_pos [1; 2; 3] /\ sp_win_prob [1; 2; 3] 1 = 1 / 3 /\ sp_pair_prob [1; 2; 3] 1 2 = 1 / 4.
+Proof. exact sp_example2. Qed.
